@@ -399,7 +399,7 @@ MANIFEST_TEXT = {
     "C05": _eval_text("the operators regenerated from reflectmath.go compute the documented semantics for every operand width; short-circuit, negation, parentheses, argument order; grammar levels match the published table except `&` (recorded finding D4)."),
     "C07": _eval_text("snapshot sharing is injective on trees, and a rule inside any knowledge base decides and does what its own text does on the facts."),
     "C08": _eval_text("Execute/FetchMatchingRules on an instance with arbitrary remembered values and Retracted flags equal the call on a fresh instance; Fetch leaves the facts alone."),
-    "C13": _eval_text("a computed method call / field read is remembered and answered without re-evaluation until an assignment or Forget whose text occurs in it."),
+    "C13": _eval_text("a computed method call / field read is remembered and answered without re-evaluation until an assignment or Forget whose text occurs in it; over a whole Execute call a counted method that occurs with one text runs at most once plus once per invalidating statement executed (C13_run)."),
     "C14": _eval_text("failing conditions/actions are contained: facts and memory stay sound, errors name the failing rule, completed statements keep their effect, nothing fires afterwards."),
     "C03": _eng_text("at most one firing per cycle, of a candidate with maximal salience; each rule evaluated at most once per cycle."),
     "C06": _eng_text("termination within MaxCycle+1 passes, at most MaxCycle firings, cycle-limit error exactly when one more firing is needed, nil only at quiescence/Complete, consecutive cycle numbers and a faithful evaluation/execution protocol."),
